@@ -379,12 +379,7 @@ func gen(tier string, r *lib.Rand, emit func(string)) {
 			emit(fmt.Sprintf("decompose %s %x", m, x))
 		}
 	}
-	// hybrid with K = 0 terminates (pure run-length); outside the property, correspondence only
-	for x := 0; x < 256; x++ {
-		for t := 0; t <= 3; t++ {
-			emit(fmt.Sprintf("decompose hybrid:0:%d %x", t, x))
-		}
-	}
+	// (K = 0 is outside the property: Fixed/Sliding never return in Go, so no such case is sent.)
 	// (b) structured and random x up to 1024 bits, K and T sampled from 1..130 / 0..130
 	pick := func() int {
 		switch r.Intn(4) {
